@@ -117,6 +117,49 @@ def runDepth (t : CTerm) (maxOps : Nat) : String := Id.run do
       | some (d', st', _) => d := d'; st := st'
   return " ".intercalate out.toList
 
+/-! ### K2: depth of the Go stack at every callback (pinned `For`: one frame per machine transition) -/
+
+def setDepthCfg (d : Nat) : Cfg Store Int String → Cfg Store Int String
+  | .eval t k st => .eval t k { st with depth := d }
+  | .apply k s v st => .apply k s v { st with depth := d }
+  | .loop n c p b k sk st => .loop n c p b k sk { st with depth := d }
+  | c => c
+
+partial def runD (N : Nat) (c : Cfg Store Int String) (d : Nat) (fuel : Nat) : Cfg Store Int String :=
+  if c.final || fuel = 0 then c else runD N (step N (setDepthCfg d c)) (d + 1) (fuel - 1)
+
+/-- events of one advance with depths normalised to the smallest depth of that advance -/
+def normEvents (evs : List String) : String :=
+  let parsed := evs.map fun e =>
+    match e.splitOn "@" with
+    | [n, d] => (n, d.toNat!)
+    | _ => (e, 0)
+  let m := parsed.foldl (fun acc p => min acc p.2) (parsed.head?.map (·.2) |>.getD 0)
+  ",".intercalate (parsed.map fun p => s!"{p.1}@{p.2 - m}")
+
+/-- a plain drain of `maxOps` MoveNext calls with depth-tagged events -/
+def runDepthTrace (t : CTerm) (maxOps : Nat) : String := Id.run do
+  let mut st : Store := { logDepth := true }
+  let mut d : Gen Store Int String := Gen.start (build t st)
+  let mut out : Array String := #[]
+  for _ in [0:maxOps] do
+    match d.next with
+    | none => out := out.push "M=false[]"; break
+    | some nx =>
+      let st0 := { st with depth := 0 }
+      let c0 : Cfg Store Int String := .eval (nx.f 0 st0) nx.k (nx.g 0 st0)
+      match runD loopBudget c0 1 machineFuel with
+      | .halt st' (some pd) _ =>
+        out := out.push s!"M=true[{normEvents (logDelta st.log st'.log)}]"
+        d := { d with next := some ⟨pd.f, pd.g, pd.k⟩, current := pd.value }; st := st'
+      | .halt st' none _ =>
+        out := out.push s!"M=false[{normEvents (logDelta st.log st'.log)}]"
+        break
+      | .panicked p st' =>
+        out := out.push s!"M=PANIC({p})[{normEvents (logDelta st.log st'.log)}]"; st := st'; break
+      | _ => out := out.push "M=OOB"; break
+  return " ".intercalate out.toList
+
 /-- request: `(k1 <cterm> (<ops>))` → `model: … | spec: …` ; `(k2 <cterm> n)` -/
 def runtimeRequest : Sexp → Option String
   | .list [.atom "k1", t, .list ops] => do
@@ -134,6 +177,9 @@ def runtimeRequest : Sexp → Option String
   | .list [.atom "k2", t, n] => do
       let t ← parseCTerm t
       some (runDepth t (← n.nat?))
+  | .list [.atom "k2d", t, n] => do
+      let t ← parseCTerm t
+      some (runDepthTrace t (← n.nat?))
   | _ => none
 
 end GoCo
